@@ -58,6 +58,12 @@ pub enum DynamicStringPart {
     Text(String),
     Expression(Expression),
     Sequence(Sequence),
+    /// `{condition: when true|when false}`
+    Conditional {
+        condition: Condition,
+        when_true: Vec<Node>,
+        when_false: Option<Vec<Node>>,
+    },
 }
 
 #[derive(Debug, Clone, PartialEq, Default)]
